@@ -4,7 +4,11 @@
 //
 // The real runtime.VM / runtime.TempVM are driven through their Go API: stub
 // ClassStmt/InterfaceStmt/FuncStmt values for the AddX routes, tiny PHP files in
-// c.Scratch for the LoadAndRun / ParseFile / autoload routes. After every
+// c.Scratch for the LoadAndRun / ParseFile / autoload routes, and — for every route by
+// which *script code* running on a VM can define something (eval, include / require,
+// function statements executed at run time, spl_autoload_register callbacks, classes
+// needed by new / extends / trait use, define, class_alias, anonymous classes and
+// closures) — a generated script run on that VM through LoadAndRun. After every
 // operation the resolve tables (GetClass/GetInterface/GetFunc of every pool name
 // on the base and on every TempVM, identified by *which* definition answers) are
 // compared with the Lean model `vm_c12`, and judged by an oracle that does not
@@ -30,6 +34,8 @@ import (
 	"github.com/php-any/origami/parser"
 	"github.com/php-any/origami/runtime"
 	"github.com/php-any/origami/std/php"
+	"github.com/php-any/origami/std/php/core"
+	"github.com/php-any/origami/std/php/spl"
 	"github.com/php-any/origami/utils"
 
 	"verif/harness/vh"
@@ -57,25 +63,42 @@ type fileSpec struct {
 	miss  bool
 }
 
-// files 0..4 live in the class-path directory (namespace N), 5..8 are plain
-// include files, 9 does not exist.
+// files 0,1,2,4 live in the class-path directory (namespace N), 3,5..8,10 are plain
+// include files, 9 does not exist. The include files also serve as the code units handed
+// to eval() and as the files the autoload callbacks include.
 var files = []fileSpec{
 	{rel: "cls/A.php", decls: []decl{{"c", 0}, {"n", 0}}},
 	{rel: "cls/B.php", decls: []decl{{"i", 2}, {"n", 3}}},
 	{rel: "cls/C.php", decls: []decl{{"c", 4}, {"i", 5}}},
-	{rel: "cls/D.php", decls: []decl{{"i", 5}, {"n", 4}}},
+	{rel: "inc/m0.php", decls: []decl{{"i", 5}, {"n", 4}}},
 	{rel: "cls/E.php", decls: []decl{{"c", 7}}},
 	{rel: "inc/m1.php", decls: []decl{{"c", 0}, {"i", 2}, {"n", 0}, {"n", 4}}},
 	{rel: "inc/m2.php", decls: []decl{{"i", 0}, {"c", 3}, {"n", 3}, {"c", 6}}},
 	{rel: "inc/m3.php", decls: []decl{{"c", 1}, {"c", 2}, {"n", 7}, {"n", 0}}},
 	{rel: "inc/m4.php", decls: []decl{{"n", 0}, {"n", 5}, {"c", 5}}},
 	{rel: "inc/nope.php", miss: true},
+	{rel: "inc/m5.php", decls: []decl{{"c", 7}, {"n", 5}}},
 }
 
 // class-path lookup as FindClassFile answers on this disk (a.php / b.php do not
-// exist, so the case-insensitive file match finds A.php / B.php); checked
-// against the real FindClassFile at start-up.
-var find = map[int]int{0: 0, 1: 0, 2: 1, 3: 1, 4: 2, 5: 3, 6: 4}
+// exist, so the case-insensitive file match finds A.php / B.php; there is no file for
+// N\D and N\G: those names reach the spl_autoload callbacks); checked against the real
+// FindClassFile at start-up.
+var find = map[int]int{0: 0, 1: 0, 2: 1, 3: 1, 4: 2, 6: 4}
+
+// the autoload callbacks scripts can register: callback k includes file cbs[k][n] when it
+// is asked for name n (and returns false, like an autoloader that leaves the verdict to
+// the class table). Callback 0 loads a file that declares what was asked for; callback 1
+// loads a file that declares other things (and, for N\D, a class of that name).
+var cbs = []map[int]int{{7: 10, 5: 3}, {7: 7, 5: 8}}
+
+// constants scripts define() (shared by design: TempVM.SetConstant writes the base)
+var constNames = []string{"C12_K0", "C12_K1"}
+
+// the directory of a file decides how it is addressed: the include files are linked into a
+// directory of their own for every case that includes one (node.includeOnceCache is
+// process-wide and never forgets a path)
+func isIncFile(f int) bool { return strings.HasPrefix(files[f].rel, "inc/") }
 
 type disk struct {
 	root    string
@@ -83,8 +106,13 @@ type disk struct {
 	byPath  map[string]int
 	written map[string]bool
 	byRaw   map[string]int // memo: GetSource() string as reported → file id (-1 unknown)
-	parser  *parser.Parser // one parser (lexer tables, class path) re-bound to every fresh base VM
+	parser  *parser.Parser // one parser (lexer tables) re-bound to every fresh base VM of this process
 	fields  [3]string      // model-side description (constant)
+	units   []string       // file id → its text without the open tag (what eval() is handed)
+	cwd     string
+	serial  int               // private include directories handed out so far
+	wrote   map[string]string // generated script path → content last written
+	scripts string            // normalised directory of the generated scripts
 }
 
 func (d *disk) fileOf(src string) (int, bool) {
@@ -102,11 +130,17 @@ func (d *disk) fileOf(src string) (int, bool) {
 func short(n int) string { return strings.TrimPrefix(names[n], `N\`) }
 
 func writeDisk(root string) (*disk, error) {
-	d := &disk{root: root, byPath: map[string]int{}, byRaw: map[string]int{}, written: map[string]bool{}}
+	d := &disk{root: root, byPath: map[string]int{}, byRaw: map[string]int{}, written: map[string]bool{}, wrote: map[string]string{}}
+	d.cwd, _ = os.Getwd()
+	if err := os.MkdirAll(filepath.Join(root, "scripts"), 0o755); err != nil {
+		return nil, err
+	}
+	d.scripts = utils.NormalizePhpFilePath(filepath.Join(root, "scripts"))
 	for i, f := range files {
 		p := filepath.Join(root, f.rel)
 		d.paths = append(d.paths, p)
 		d.byPath[utils.NormalizePhpFilePath(p)] = i
+		d.units = append(d.units, "")
 		if f.miss {
 			continue
 		}
@@ -115,10 +149,16 @@ func writeDisk(root string) (*disk, error) {
 		}
 		var sb strings.Builder
 		sb.WriteString("<?php\nnamespace N;\n")
-		for _, dc := range f.decls {
+		for di, dc := range f.decls {
 			switch dc.kind {
 			case "c":
-				fmt.Fprintf(&sb, "class %s {}\n", short(dc.name))
+				// the include files spell their classes in every way the parser registers through
+				// AddClass at parse time (class_parser, abstract_class_parser, trait_parser, enum_parser)
+				sp := "class"
+				if isIncFile(i) {
+					sp = []string{"class", "abstract class", "final class", "trait", "enum"}[(i+di)%5]
+				}
+				fmt.Fprintf(&sb, "%s %s {}\n", sp, short(dc.name))
 			case "i":
 				fmt.Fprintf(&sb, "interface %s {}\n", short(dc.name))
 			case "n":
@@ -128,8 +168,32 @@ func writeDisk(root string) (*disk, error) {
 		if err := os.WriteFile(p, []byte(sb.String()), 0o644); err != nil {
 			return nil, err
 		}
+		d.units[i] = strings.TrimPrefix(sb.String(), "<?php\n")
 	}
 	return d, nil
+}
+
+// model-side description of the autoload callbacks and of the constant pool
+func cbsField() string {
+	var gs []string
+	for _, cb := range cbs {
+		var ps []string
+		for n := 0; n < len(names); n++ {
+			if f, ok := cb[n]; ok {
+				ps = append(ps, fmt.Sprintf("%d>%d", n, f))
+			}
+		}
+		gs = append(gs, strings.Join(ps, ","))
+	}
+	return strings.Join(gs, ";")
+}
+
+func cpoolField() string {
+	ps := make([]string, len(constNames))
+	for i := range constNames {
+		ps[i] = fmt.Sprint(i)
+	}
+	return strings.Join(ps, ",")
 }
 
 func (d *disk) modelFields() (string, string, string) {
@@ -166,13 +230,40 @@ func (d *disk) computeFields() (string, string, string) {
 
 // ------------------------------------------------------------ operations
 
+// API operations: add | lar | pf | golc | goli | pkg | dis.
+// Script routes (a generated script run on VM V through LoadAndRun):
+//
+//	ev   eval() of the declarations of file F            sp: literal | variable | inside a function
+//	inc  include / require of file F                     sp bit0 _once, bit1 require, bit2 relative path
+//	rfn  function N declared by a statement executed at run time   sp: nested | conditional | inside a method
+//	areg spl_autoload_register(callback N)               sp: closure | static closure
+//	use  the script needs class N                        sp: new | new $name | extends | trait use (2,3 = parse time)
+//	def  define(constant N)
+//	als  class_alias(N, F)  (F = the alias name id)
+//	nop  defines nothing                                 sp: anonymous class | closure | arrow fn | run_php_file
 type op struct {
-	K  string `json:"k"`            // add | lar | pf | golc | goli | pkg | dis
+	K  string `json:"k"`
 	V  int    `json:"v"`            // -1 = base, i = TempVM slot i
 	Kd string `json:"kd,omitempty"` // add: c | i | n
-	N  int    `json:"n,omitempty"`  // name id (add / golc / goli / pkg)
-	F  int    `json:"f,omitempty"`  // file id (lar / pf)
-	ID int    `json:"id,omitempty"` // add: identity of the stub statement
+	N  int    `json:"n,omitempty"`  // name id (add / golc / goli / pkg / rfn / use / als), callback (areg), constant (def)
+	F  int    `json:"f,omitempty"`  // file id (lar / pf / ev / inc), alias name id (als)
+	ID int    `json:"id,omitempty"` // identity of the stub statement (add) / of the script's definitions (ev, rfn)
+	Sp int    `json:"sp,omitempty"` // spelling of a script route (the model does not see it, except inc bit1 and use >= 2)
+}
+
+func (o op) isScript() bool {
+	switch o.K {
+	case "ev", "inc", "rfn", "areg", "use", "def", "als", "nop":
+		return true
+	}
+	return false
+}
+
+func b01(b bool) int {
+	if b {
+		return 1
+	}
+	return 0
 }
 
 func vmTag(v int) string {
@@ -192,6 +283,22 @@ func (o op) model() string {
 		return fmt.Sprintf("%s %s %d", o.K, vmTag(o.V), o.N)
 	case "dis":
 		return fmt.Sprintf("dis %d", o.V)
+	case "ev":
+		return fmt.Sprintf("ev %s %d %d", vmTag(o.V), o.F, o.ID)
+	case "inc":
+		return fmt.Sprintf("inc %s %d %d", vmTag(o.V), o.F, b01(o.Sp&2 != 0))
+	case "rfn":
+		return fmt.Sprintf("rfn %s %d %d", vmTag(o.V), o.N, o.ID)
+	case "areg":
+		return fmt.Sprintf("areg %s %d", vmTag(o.V), o.N)
+	case "use":
+		return fmt.Sprintf("use %s %d %d", vmTag(o.V), o.N, b01(o.Sp >= 2))
+	case "def":
+		return fmt.Sprintf("def %s %d", vmTag(o.V), o.N)
+	case "als":
+		return fmt.Sprintf("als %s %d %d", vmTag(o.V), o.N, o.F)
+	case "nop":
+		return fmt.Sprintf("nop %s", vmTag(o.V))
 	}
 	return "?"
 }
@@ -213,56 +320,174 @@ func (o op) method() string {
 		return "LoadPkg"
 	case "dis":
 		return "discard"
+	case "ev":
+		return "eval"
+	case "inc":
+		return "include"
+	case "rfn":
+		return "function-at-run-time"
+	case "areg":
+		return "spl_autoload_register"
+	case "use":
+		return "class-use"
+	case "def":
+		return "define"
+	case "als":
+		return "class_alias"
+	case "nop":
+		return "inert-script"
 	}
 	return "?"
 }
 
-func (o op) String() string { return o.model() }
+func (o op) String() string {
+	if o.isScript() && o.Sp != 0 {
+		return fmt.Sprintf("%s sp%d", o.model(), o.Sp)
+	}
+	return o.model()
+}
+
+// what an autoload of name n can define (class-path file, else the callbacks' files)
+func autoOffers(n int) []decl {
+	if f, ok := find[n]; ok {
+		return files[f].decls
+	}
+	var out []decl
+	for _, cb := range cbs {
+		if f, ok := cb[n]; ok {
+			out = append(out, files[f].decls...)
+		}
+	}
+	return out
+}
 
 // what an operation can define (set-based bookkeeping of the oracle)
 func (o op) offers() []decl {
 	switch o.K {
 	case "add":
 		return []decl{{o.Kd, o.N}}
-	case "lar", "pf":
+	case "lar", "pf", "ev", "inc":
 		return files[o.F].decls
-	case "golc", "goli", "pkg":
-		if f, ok := find[o.N]; ok {
-			return files[f].decls
-		}
+	case "golc", "goli", "pkg", "use":
+		return autoOffers(o.N)
+	case "rfn":
+		return []decl{{"n", o.N}}
 	}
 	return nil
 }
 
-// the routes of the known finding: a TempVM asks the *base* to autoload
-func (o op) knownRoute() bool {
+// the routes of the known finding: a TempVM asks the *base* to autoload (the base's
+// autoloader has something to try: a class-path file, or — once a script registered one —
+// an autoload callback)
+func (o op) knownRoute(autoRegistered bool) bool {
 	if o.V < 0 || (o.K != "goli" && o.K != "pkg") {
 		return false
 	}
 	_, ok := find[o.N]
-	return ok
+	return ok || autoRegistered
+}
+
+// sanitize keeps a main-stream history free of the known routes: GetOrLoadInterface /
+// LoadPkg through a TempVM are dropped once an autoload callback is registered
+func sanitize(ops []op) []op {
+	out := ops[:0:0]
+	reg := false
+	for _, o := range ops {
+		if o.knownRoute(reg) {
+			continue
+		}
+		if o.K == "areg" {
+			reg = true
+		}
+		out = append(out, o)
+	}
+	return out
 }
 
 // ------------------------------------------------------------ the real VMs
 
 type world struct {
-	d      *disk
-	base   data.VM
-	temps  []data.VM
-	thrown int
-	stubs  map[any]int
+	d       *disk
+	base    data.VM
+	temps   []data.VM
+	thrown  int
+	stubs   map[any]int
+	paths   []string       // file id → path in this world
+	incDir  string         // private copy of the include files ("" = the shared directory)
+	priv    map[string]int // normalised private path → file id
+	scripts map[string]int // normalised path of a generated script → identity of what it defines
+	step    int            // operations executed so far (names the generated script)
 }
 
-func newWorld(d *disk, nt int) *world {
-	w := &world{d: d, stubs: map[any]int{}}
+// the builtins the script routes call (php.Load would also install process-wide hooks)
+func builtins() []data.FuncStmt {
+	return []data.FuncStmt{php.NewEvalFunction(), core.NewDefineFunction(), php.NewClassAliasFunction(),
+		spl.NewSplAutoloadRegisterFunction(), php.NewRunPhpFileFunction(),
+		php.NewClassExistsFunction(), php.NewFunctionExistsFunction()}
+}
+
+// newWorld: a fresh base VM + nt TempVMs. private = the history includes files from
+// scripts: node.includeOnceCache remembers every included path for the life of the
+// process, so such a history gets the include files under paths nobody used before.
+func newWorld(d *disk, nt int, private bool) *world {
+	w := &world{d: d, stubs: map[any]int{}, paths: d.paths, scripts: map[string]int{}}
+	// the class path manager learns directories while files are parsed (a `namespace N;`
+	// statement registers the file's directory): every world starts from a fresh one
+	d.parser.SetClassPathManager(parser.NewDefaultClassPathManager())
 	// runtime.NewVM binds the parser to the new VM (parser.SetVM); the parser carries no
 	// definitions itself, so one instance serves every fresh base VM of this process.
 	w.base = runtime.NewVM(d.parser)
+	w.base.AddNamespace("N", filepath.Join(d.root, "cls"))
 	w.base.SetThrowControl(func(acl data.Control) { w.thrown++ })
+	for _, f := range builtins() {
+		w.base.AddFunc(f)
+	}
 	for i := 0; i < nt; i++ {
 		w.temps = append(w.temps, runtime.NewTempVM(w.base))
 	}
+	if private {
+		d.serial++
+		w.incDir = filepath.Join(d.root, fmt.Sprintf("i%d", d.serial))
+		os.MkdirAll(w.incDir, 0o755)
+		w.paths = append([]string{}, d.paths...)
+		w.priv = map[string]int{}
+		ndir := utils.NormalizePhpFilePath(w.incDir)
+		for f := range files {
+			if !isIncFile(f) {
+				continue
+			}
+			base := filepath.Base(files[f].rel)
+			w.paths[f] = filepath.Join(w.incDir, base)
+			w.priv[filepath.Join(ndir, base)] = f
+			if files[f].miss {
+				continue
+			}
+			if err := os.Link(d.paths[f], w.paths[f]); err != nil {
+				b, _ := os.ReadFile(d.paths[f])
+				os.WriteFile(w.paths[f], b, 0o644)
+			}
+		}
+	}
 	return w
+}
+
+// close forgets what this world left in process-wide state
+func (w *world) close() {
+	for _, f := range parser.GetAutoLoad() {
+		parser.RemoveAutoLoad(f)
+	}
+	if w.incDir != "" {
+		os.RemoveAll(w.incDir)
+	}
+}
+
+func needsPrivate(ops []op) bool {
+	for _, o := range ops {
+		if o.K == "inc" || o.K == "areg" {
+			return true
+		}
+	}
+	return false
 }
 
 func (w *world) vm(v int) data.VM {
@@ -298,10 +523,29 @@ func (w *world) src(x any) string {
 		return fmt.Sprintf("s%d", id)
 	}
 	if g, ok := x.(fromer); ok && g.GetFrom() != nil {
-		if f, ok := w.d.fileOf(g.GetFrom().GetSource()); ok {
+		src := g.GetFrom().GetSource()
+		if strings.HasPrefix(src, w.d.scripts) {
+			// declared by a generated script, or by the string it handed to eval()
+			// ("<script>(<line>) : eval()'d code")
+			if i := strings.Index(src, ".php("); i >= 0 && strings.HasSuffix(src, "eval()'d code") {
+				src = src[:i+4]
+			}
+			if id, ok := w.scripts[src]; ok {
+				return fmt.Sprintf("s%d", id)
+			}
+		}
+		if f, ok := w.priv[src]; ok {
 			return fmt.Sprintf("f%d", f)
 		}
-		return "?" + filepath.Base(g.GetFrom().GetSource())
+		if w.incDir != "" && strings.HasPrefix(src, w.d.root) {
+			if f, ok := w.priv[utils.NormalizePhpFilePath(src)]; ok {
+				return fmt.Sprintf("f%d", f)
+			}
+		}
+		if f, ok := w.d.fileOf(src); ok {
+			return fmt.Sprintf("f%d", f)
+		}
+		return "?" + filepath.Base(src)
 	}
 	return fmt.Sprintf("?%T", x)
 }
@@ -358,12 +602,154 @@ func showTables(ts [][]string) string {
 	return strings.Join(p, "/")
 }
 
+// what every VM answers for the constant pool; constants are shared by design, so the
+// rows agree and one is shown
+func (w *world) consts() string {
+	var rows []string
+	for _, v := range append([]data.VM{w.base}, w.temps...) {
+		var sb strings.Builder
+		func() {
+			defer func() {
+				if r := recover(); r != nil {
+					sb.WriteString("!")
+				}
+			}()
+			for _, c := range constNames {
+				if _, ok := v.GetConstant(c); ok {
+					sb.WriteByte('1')
+				} else {
+					sb.WriteByte('0')
+				}
+			}
+		}()
+		rows = append(rows, sb.String())
+	}
+	for _, r := range rows[1:] {
+		if r != rows[0] {
+			return "split:" + strings.Join(rows, "/")
+		}
+	}
+	return rows[0]
+}
+
+func phpStr(s string) string {
+	return "'" + strings.NewReplacer(`\`, `\\`, `'`, `\'`).Replace(s) + "'"
+}
+
+// the path a script uses for file f (sp bit2: relative to the working directory, which is
+// what node.IncludeCore resolves a relative path against)
+func (w *world) incPath(f int, relative bool) string {
+	if relative {
+		if r, err := filepath.Rel(w.d.cwd, w.paths[f]); err == nil {
+			return r
+		}
+	}
+	return w.paths[f]
+}
+
+// scriptBody: the script of one script route (k names what it declares besides the pool names)
+func (w *world) scriptBody(o op, k int) string {
+	var sb strings.Builder
+	sb.WriteString("<?php\n")
+	switch o.K {
+	case "ev":
+		code := phpStr(w.d.units[o.F])
+		switch o.Sp % 3 {
+		case 0:
+			fmt.Fprintf(&sb, "eval(%s);\n", code)
+		case 1:
+			fmt.Fprintf(&sb, "$c12 = %s;\neval($c12);\n", code)
+		default:
+			fmt.Fprintf(&sb, "function c12_ev%d() { eval(%s); }\nc12_ev%d();\n", k, code, k)
+		}
+	case "inc":
+		kw := []string{"include", "include_once", "require", "require_once"}[o.Sp&3]
+		fmt.Fprintf(&sb, "%s %s;\n", kw, phpStr(w.incPath(o.F, o.Sp&4 != 0)))
+	case "rfn":
+		switch o.Sp % 3 {
+		case 0:
+			fmt.Fprintf(&sb, "namespace N;\nfunction c12_o%d() { function %s() {} }\nc12_o%d();\n", k, short(o.N), k)
+		case 1:
+			fmt.Fprintf(&sb, "namespace N;\nif (true) { function %s() {} }\n", short(o.N))
+		default:
+			fmt.Fprintf(&sb, "namespace N;\nclass C12W%d { static function m() { function %s() {} } }\nC12W%d::m();\n", k, short(o.N), k)
+		}
+	case "areg":
+		if o.Sp%2 == 1 {
+			sb.WriteString("spl_autoload_register(static function($c) {")
+		} else {
+			sb.WriteString("spl_autoload_register(function($c) {")
+		}
+		if o.N >= 0 && o.N < len(cbs) {
+			for n := 0; n < len(names); n++ {
+				if f, ok := cbs[o.N][n]; ok {
+					fmt.Fprintf(&sb, " if ($c == %s) { include %s; }", phpStr(names[n]), phpStr(w.paths[f]))
+				}
+			}
+		}
+		sb.WriteString(" return false; });\n")
+	case "use":
+		switch o.Sp % 4 {
+		case 0:
+			fmt.Fprintf(&sb, "$o = new \\%s();\n", names[o.N])
+		case 1:
+			fmt.Fprintf(&sb, "$c12 = %s;\n$o = new $c12();\n", phpStr(names[o.N]))
+		case 2:
+			fmt.Fprintf(&sb, "class C12U%d extends \\%s {}\n", k, names[o.N])
+		default:
+			fmt.Fprintf(&sb, "class C12U%d { use \\%s; }\n", k, names[o.N])
+		}
+	case "def":
+		fmt.Fprintf(&sb, "define(%s, 1);\n", phpStr(constNames[o.N%len(constNames)]))
+	case "als":
+		fmt.Fprintf(&sb, "echo class_alias(%s, %s) ? '1' : '0';\n", phpStr(names[o.N]), phpStr(names[o.F]))
+	case "nop":
+		switch o.Sp % 4 {
+		case 0:
+			sb.WriteString("$o = new class { function f() { return 1; } };\n$o->f();\n")
+		case 1:
+			sb.WriteString("$f = function() { return 2; };\n$f();\n")
+		case 2:
+			sb.WriteString("$g = fn($x) => $x + 1;\n$g(1);\n")
+		default:
+			fmt.Fprintf(&sb, "try { run_php_file(%s); } catch (\\Throwable $e) { }\n", phpStr(filepath.Join(w.d.root, "scripts", fmt.Sprintf("compiled%d.php", k))))
+		}
+	}
+	return sb.String()
+}
+
+// execScript runs the script of a script route on its VM through LoadAndRun
+func (w *world) execScript(o op) string {
+	k := w.step
+	path := filepath.Join(w.d.scripts, fmt.Sprintf("w%d.php", k))
+	body := w.scriptBody(o, k)
+	if w.d.wrote[path] != body {
+		os.WriteFile(path, []byte(body), 0o644)
+		w.d.wrote[path] = body
+	}
+	w.scripts[path] = o.ID
+	out := w.runFile(w.vm(o.V), path)
+	switch {
+	case strings.Contains(out, "!panic"):
+		return "crash"
+	case strings.Contains(out, "!err"):
+		return "err"
+	case o.K == "als" && !strings.HasPrefix(out, "1"):
+		return "err"
+	}
+	return "ok:-"
+}
+
 func (w *world) exec(o op) (res string) {
 	defer func() {
+		w.step++
 		if r := recover(); r != nil {
 			res = "crash"
 		}
 	}()
+	if o.isScript() {
+		return w.execScript(o)
+	}
 	okIf := func(acl data.Control) string {
 		if acl != nil {
 			return "err"
@@ -388,10 +774,10 @@ func (w *world) exec(o op) (res string) {
 			return okIf(v.AddFunc(s))
 		}
 	case "lar":
-		_, acl := v.LoadAndRun(w.d.paths[o.F])
+		_, acl := v.LoadAndRun(w.paths[o.F])
 		return okIf(acl)
 	case "pf":
-		_, acl := v.ParseFile(w.d.paths[o.F], data.NewObjectValue())
+		_, acl := v.ParseFile(w.paths[o.F], data.NewObjectValue())
 		return okIf(acl)
 	case "golc":
 		c, acl := v.GetOrLoadClass(names[o.N])
@@ -437,7 +823,7 @@ func (cs caseT) modelLine(d *disk) string {
 	for i, o := range cs.Ops {
 		os_[i] = o.model()
 	}
-	return strings.Join([]string{"run", fs, fd, fo, strings.Join(ps, ","), fmt.Sprint(cs.NT), strings.Join(os_, "|")}, "\t")
+	return strings.Join([]string{"run", fs, fd, fo, strings.Join(ps, ","), fmt.Sprint(cs.NT), strings.Join(os_, "|"), cbsField(), cpoolField()}, "\t")
 }
 
 type finding struct {
@@ -449,9 +835,12 @@ type stepObs struct {
 	res    string
 	thrown int
 	tabs   [][]string
+	consts string
 }
 
-func (s stepObs) String() string { return fmt.Sprintf("%s;%d;%s", s.res, s.thrown, showTables(s.tabs)) }
+func (s stepObs) String() string {
+	return fmt.Sprintf("%s;%d;%s;%s", s.res, s.thrown, showTables(s.tabs), s.consts)
+}
 
 func eqTab(a, b []string) bool {
 	if len(a) != len(b) {
@@ -475,7 +864,9 @@ func foldOf(n int) int {
 // runImpl executes the case on fresh real VMs and judges every step with the
 // model-independent oracle.
 func runImpl(d *disk, cs caseT) (obs []stepObs, fs []finding) {
-	w := newWorld(d, cs.NT)
+	w := newWorld(d, cs.NT, needsPrivate(cs.Ops))
+	defer w.close()
+	autoReg := false // a script registered an autoload callback (process-wide, survives discards)
 	// set-based bookkeeping: what was offered through which VM
 	offBase := map[decl]bool{}
 	offTemp := make([]map[decl]bool, cs.NT)
@@ -485,9 +876,14 @@ func runImpl(d *disk, cs caseT) (obs []stepObs, fs []finding) {
 	polluted := false // known stream: after a known leak the bookkeeping bound no longer applies
 	before := w.tables(cs.Pool)
 	for si, o := range cs.Ops {
+		known := o.knownRoute(autoReg)
+		thrownBefore := w.thrown
 		res := w.exec(o)
+		if o.K == "areg" {
+			autoReg = true
+		}
 		after := w.tables(cs.Pool)
-		obs = append(obs, stepObs{res, w.thrown, after})
+		obs = append(obs, stepObs{res, w.thrown, after, w.consts()})
 		add := func(sig, what string) {
 			fs = append(fs, finding{sig, fmt.Sprintf("step %d (%s): %s", si, o, what), si})
 		}
@@ -514,7 +910,7 @@ func runImpl(d *disk, cs caseT) (obs []stepObs, fs []finding) {
 						}
 					}
 					add(sig, fmt.Sprintf("%s through TempVM %d changed what %s resolves: before %s after %s", o.method(), o.V, who, strings.Join(before[vi], ","), strings.Join(after[vi], ",")))
-					if o.knownRoute() {
+					if known {
 						polluted = true
 					}
 					break
@@ -578,6 +974,13 @@ func runImpl(d *disk, cs caseT) (obs []stepObs, fs []finding) {
 				}
 			}
 		}
+		if o.K == "rfn" && o.V >= 0 && res == "ok:-" && w.thrown == thrownBefore {
+			for pi, n := range cs.Pool {
+				if n == o.N && after[o.V+1][2*np+pi] == "-" {
+					add("own:invisible:n", fmt.Sprintf("TempVM %d does not resolve the function %s a script running on it just declared", o.V, names[n]))
+				}
+			}
+		}
 		before = after
 	}
 	return
@@ -592,7 +995,7 @@ func nontrivial(cs caseT) bool {
 			continue
 		}
 		vs[o.V] = true
-		if o.V >= 0 && (o.K == "add" || o.K == "lar" || o.K == "pf" || o.K == "golc") {
+		if o.V >= 0 && (o.K == "add" || o.K == "lar" || o.K == "pf" || o.K == "golc" || o.K == "inc" || o.K == "rfn" || o.K == "use" || o.K == "ev") {
 			tdef = true
 		}
 	}
@@ -752,6 +1155,9 @@ func (r *runner) compare(cs caseT, obs []stepObs, mline string) {
 		if j := strings.LastIndex(mrec, ";"); j >= 0 {
 			mrec = mrec[:j] // drop the model's `leaky` flag
 		}
+		if os.Getenv("C12_TRACE") != "" {
+			fmt.Fprintf(os.Stderr, "step %d %-28s impl  %s\n%37smodel %s\n", i, cs.Ops[i], impl, "", mrec)
+		}
 		if impl != mrec {
 			r.c.Mismatch(cs, impl, mrec, fmt.Sprintf("step %d (%s): runtime.VM/TempVM vs Model.Temp", i, cs.Ops[i]))
 			return
@@ -762,6 +1168,16 @@ func (r *runner) compare(cs caseT, obs []stepObs, mline string) {
 // ------------------------------------------------------------ generators
 
 func allPool() []int { return []int{0, 1, 2, 3, 4, 5, 6, 7} }
+
+func allFiles() []int {
+	out := make([]int, len(files))
+	for i := range files {
+		out[i] = i
+	}
+	return out
+}
+
+func pfFiles() []int { return []int{0, 1, 5, 6, 7, 8, 9, 10} }
 
 // main-stream alphabet: everything except the known routes (GetOrLoadInterface /
 // LoadPkg through a TempVM for a name the class path has a file for)
@@ -793,7 +1209,7 @@ func (a alphaSpec) ops() []op {
 		}
 		for _, n := range a.lookup {
 			for _, k := range []string{"goli", "pkg"} {
-				if o := (op{K: k, V: v, N: n}); !o.knownRoute() {
+				if o := (op{K: k, V: v, N: n}); !o.knownRoute(false) {
 					out = append(out, o)
 				}
 			}
@@ -809,13 +1225,93 @@ func alphabet(nt int, ns []int, lar []int, pf []int) []op {
 	return alphaSpec{nt: nt, add: ns, lar: lar, pf: pf, golc: ns, lookup: ns}.ops()
 }
 
+// the script routes, on every VM (spelling 0; spell() varies it)
+type routeSpec struct {
+	nt   int
+	ev   []int    // units handed to eval()
+	inc  [][2]int // {file, 1 = require}
+	rfn  []int    // names declared by a statement executed at run time
+	areg []int    // callbacks
+	use  [][2]int // {name, 1 = needed at parse time}
+	def  []int    // constants
+	als  [][2]int // {original, alias}
+	nop  bool
+}
+
+func (a routeSpec) ops() []op {
+	var out []op
+	for v := -1; v < a.nt; v++ {
+		for _, f := range a.ev {
+			out = append(out, op{K: "ev", V: v, F: f})
+		}
+		for _, fr := range a.inc {
+			out = append(out, op{K: "inc", V: v, F: fr[0], Sp: 2 * fr[1]})
+		}
+		for _, n := range a.rfn {
+			out = append(out, op{K: "rfn", V: v, N: n})
+		}
+		for _, cb := range a.areg {
+			out = append(out, op{K: "areg", V: v, N: cb})
+		}
+		for _, np := range a.use {
+			out = append(out, op{K: "use", V: v, N: np[0], Sp: 2 * np[1]})
+		}
+		for _, c := range a.def {
+			out = append(out, op{K: "def", V: v, N: c})
+		}
+		for _, ab := range a.als {
+			out = append(out, op{K: "als", V: v, N: ab[0], F: ab[1]})
+		}
+		if a.nop {
+			out = append(out, op{K: "nop", V: v})
+		}
+	}
+	return out
+}
+
+// every script route over the whole pool
+func allRoutes(nt int) []op {
+	a := routeSpec{nt: nt, areg: []int{0, 1}, def: []int{0, 1}, nop: true,
+		als: [][2]int{{0, 6}, {1, 0}, {4, 7}, {7, 4}, {5, 6}, {3, 2}, {6, 1}, {2, 5}}}
+	for f := range files {
+		if !files[f].miss {
+			a.ev = append(a.ev, f)
+		}
+		if isIncFile(f) {
+			a.inc = append(a.inc, [2]int{f, 0}, [2]int{f, 1})
+		}
+	}
+	for n := range names {
+		a.rfn = append(a.rfn, n)
+		a.use = append(a.use, [2]int{n, 0}, [2]int{n, 1})
+	}
+	return a.ops()
+}
+
+// spell picks one of the spellings of a script route that mean the same to the model
+func spell(o op, x int) op {
+	switch o.K {
+	case "ev", "rfn":
+		o.Sp = x % 3
+	case "areg":
+		o.Sp = x % 2
+	case "nop":
+		o.Sp = x % 4
+	case "inc":
+		o.Sp = o.Sp&2 | x&1 | (x>>1)&1<<2
+	case "use":
+		o.Sp = o.Sp&2 | x&1
+	}
+	return o
+}
+
 // the known routes only
 func knownAlphabet(nt int, ns []int) []op {
 	var a []op
 	for v := 0; v < nt; v++ {
 		for _, n := range ns {
 			for _, k := range []string{"goli", "pkg"} {
-				if o := (op{K: k, V: v, N: n}); o.knownRoute() {
+				if o := (op{K: k, V: v, N: n}); o.knownRoute(true) {
 					a = append(a, o)
 				}
 			}
@@ -827,7 +1323,7 @@ func knownAlphabet(nt int, ns []int) []op {
 func stamp(ops []op) []op {
 	out := make([]op, len(ops))
 	for i, o := range ops {
-		if o.K == "add" {
+		if o.K == "add" || o.K == "ev" || o.K == "rfn" {
 			o.ID = 100 + i
 		}
 		out[i] = o
@@ -883,7 +1379,13 @@ func (r *runner) exhaustive(alpha []op, length int, nt int, pool []int) int {
 		if len(cur) == length {
 			count++
 			if r.take() {
-				r.batch = append(r.batch, caseT{Stream: "main", NT: nt, Pool: pool, Ops: stamp(cur)})
+				ops := stamp(cur)
+				for i := range ops {
+					if ops[i].isScript() {
+						ops[i] = spell(ops[i], count+3*i)
+					}
+				}
+				r.batch = append(r.batch, caseT{Stream: "main", NT: nt, Pool: pool, Ops: ops})
 				if len(r.batch) >= 1000 {
 					r.flush()
 				}
@@ -892,7 +1394,7 @@ func (r *runner) exhaustive(alpha []op, length int, nt int, pool []int) int {
 		}
 		for _, o := range alpha {
 			cur = append(cur, o)
-			if canonicalTemps(cur) {
+			if canonicalTemps(cur) && len(sanitize(cur)) == len(cur) {
 				rec()
 			}
 			cur = cur[:len(cur)-1]
@@ -903,10 +1405,21 @@ func (r *runner) exhaustive(alpha []op, length int, nt int, pool []int) int {
 	return count
 }
 
-func (r *runner) randomCase(alpha []op, n int, stream string) caseT {
+func (r *runner) randomOps(alpha []op, n int) []op {
 	ops := make([]op, n)
 	for i := range ops {
 		ops[i] = vh.Pick(r.c.Rand, alpha)
+		if ops[i].isScript() {
+			ops[i] = spell(ops[i], r.c.Rand.Intn(8))
+		}
+	}
+	return ops
+}
+
+func (r *runner) randomCase(alpha []op, n int, stream string) caseT {
+	ops := r.randomOps(alpha, n)
+	if stream == "main" {
+		ops = sanitize(ops)
 	}
 	return caseT{Stream: stream, NT: 4, Pool: allPool(), Ops: stamp(ops)}
 }
@@ -975,10 +1488,8 @@ func (w *world) runFile(v data.VM, path string) (out string) {
 
 func (r *runner) runScript(sc scriptCase) {
 	d := r.d
-	w := newWorld(d, 4)
-	// only the two builtins the probe needs (php.Load would also install process-wide hooks)
-	w.base.AddFunc(php.NewClassExistsFunction())
-	w.base.AddFunc(php.NewFunctionExistsFunction())
+	w := newWorld(d, 4, needsPrivate(sc.Ops))
+	defer w.close()
 	pool := allPool()
 	for _, o := range sc.Ops {
 		w.exec(o)
@@ -1042,13 +1553,10 @@ func (r *runner) runScript(sc scriptCase) {
 }
 
 func (r *runner) scriptStream() {
-	alpha := alphabet(4, allPool(), []int{0, 1, 2, 3, 4, 5, 6, 7, 8, 9}, []int{0, 1, 5, 6, 7, 8, 9})
+	alpha := append(alphabet(4, allPool(), allFiles(), pfFiles()), allRoutes(4)...)
 	for i := 0; i < r.c.N(1500, 30000); i++ {
 		n := r.c.Rand.Range(0, 25)
-		ops := make([]op, n)
-		for j := range ops {
-			ops[j] = vh.Pick(r.c.Rand, alpha)
-		}
+		ops := sanitize(r.randomOps(alpha, n))
 		sc := scriptCase{Stream: "script", Ops: stamp(ops), UseV: r.c.Rand.Range(-1, 3), UseK: vh.Pick(r.c.Rand, []string{"new", "call"}), UseN: r.c.Rand.Intn(len(names))}
 		if r.take() {
 			r.runScript(sc)
@@ -1092,7 +1600,8 @@ func (r *runner) implementsLeak() {
 		os.WriteFile(hp, []byte("<?php\nnamespace N;\nclass H implements B {}\n"), 0o644)
 		d.written[hp] = true
 	}
-	w := newWorld(d, 2)
+	w := newWorld(d, 2, false)
+	defer w.close()
 	w.exec(op{K: "lar", V: 0, F: 9}) // binds TempVM 0's parser (the file itself is missing)
 	before := w.tables(allPool())
 	res := func() (s string) {
@@ -1138,7 +1647,8 @@ func (r *runner) knownStream() {
 		r.starvation()
 		r.implementsLeak()
 	}
-	alpha := append(alphabet(4, allPool(), []int{0, 1, 2, 3, 4, 5, 6, 7, 8, 9}, []int{0, 1, 5, 6, 8}), knownAlphabet(4, allPool())...)
+	alpha := append(alphabet(4, allPool(), allFiles(), []int{0, 1, 5, 6, 8}), knownAlphabet(4, allPool())...)
+	alpha = append(alpha, allRoutes(4)...)
 	for i := 0; i < r.c.N(3000, 60000); i++ {
 		r.push(r.randomCase(alpha, r.c.Rand.Range(1, 40), "known"))
 	}
@@ -1152,6 +1662,9 @@ func checkDisk(d *disk) error {
 	vm := runtime.NewVM(p)
 	vm.AddNamespace("N", filepath.Join(d.root, "cls"))
 	d.parser = p
+	// a parsed `namespace N;` adds the file's directory to the class path: the lookup table
+	// must hold with the include directory known as well
+	p.GetClassPathManager().AddNamespace("N", filepath.Join(d.root, "inc"))
 	for n := range names {
 		got, ok := p.GetClassPathManager().FindClassFile(names[n])
 		want, wok := find[n]
@@ -1402,8 +1915,23 @@ func runShard(c *vh.Ctx, shard, nshards int) {
 	c.Res.Exhaustive = true
 	c.Res.ExhaustiveWhat = fmt.Sprintf("all %d sequences of length 3 over %d operations and all %d sequences of length 4 over %d operations on base + 2 TempVMs (slots up to renaming), every prefix judged after every step", n3, len(a3), n4, len(a4))
 
-	// ---- seeded part: 1 base + 4 TempVMs, 8 names, all files
-	alpha := alphabet(4, allPool(), []int{0, 1, 2, 3, 4, 5, 6, 7, 8, 9}, []int{0, 1, 5, 6, 7, 8, 9})
+	// ---- exhaustive part over the script routes (base + 2 TempVMs): every route on every VM,
+	// together with the API operations they interact with (same file loaded / included /
+	// eval'd, autoload through a registered callback, discard)
+	rt := routeSpec{nt: 2, ev: []int{5}, inc: [][2]int{{5, 0}, {9, 1}}, rfn: []int{0}, areg: []int{0},
+		use: [][2]int{{7, 0}, {5, 1}}, def: []int{0}, als: [][2]int{{0, 7}}, nop: true}.ops()
+	r2 := append(alphaSpec{nt: 2, add: []int{0}, lar: []int{5}, golc: []int{7}}.ops(), rt...)
+	r3 := r2
+	if !c.Thorough() {
+		r3 = append(alphaSpec{nt: 2, add: []int{0}, lar: []int{5}}.ops(),
+			routeSpec{nt: 2, ev: []int{5}, inc: [][2]int{{5, 0}}, rfn: []int{0}, areg: []int{0}, use: [][2]int{{7, 0}}}.ops()...)
+	}
+	m2 := r.exhaustive(r2, 2, 2, allPool())
+	m3 := r.exhaustive(r3, 3, 2, allPool())
+	c.Res.ExhaustiveWhat += fmt.Sprintf("; script routes {eval, include/require, function at run time, spl_autoload_register, class use at run / parse time, define, class_alias, inert} + API: all %d sequences of length 2 over %d operations and all %d of length 3 over %d", m2, len(r2), m3, len(r3))
+
+	// ---- seeded part: 1 base + 4 TempVMs, 8 names, all files, API operations and script routes
+	alpha := append(alphabet(4, allPool(), allFiles(), pfFiles()), allRoutes(4)...)
 	for i := 0; i < c.N(20000, 400000); i++ {
 		r.push(r.randomCase(alpha, c.Rand.Range(5, 40), "main"))
 	}
